@@ -74,36 +74,36 @@ func (st *c17Stream) open() bool {
 }
 
 type c17Conn struct {
-	idx       int
-	srv       *synctestNetConn // the harness' (server) end
-	cliEnd    net.Conn
-	cc        *ClientConn
-	wire      *c15Wire
-	pre       []byte
-	preOK     bool
-	fr        *Framer
-	wbuf      bytes.Buffer
-	henc      *hpack.Encoder
-	hbuf      bytes.Buffer
-	frames    []c15Frame
-	streams   []*c17Stream
-	byID      map[uint32]*c17Stream
-	cliClosed bool // the client closed the connection (EOF)
-	srvClosed bool // the harness closed it
+	idx          int
+	srv          *synctestNetConn // the harness' (server) end
+	cliEnd       net.Conn
+	cc           *ClientConn
+	wire         *c15Wire
+	pre          []byte
+	preOK        bool
+	fr           *Framer
+	wbuf         bytes.Buffer
+	henc         *hpack.Encoder
+	hbuf         bytes.Buffer
+	frames       []c15Frame
+	streams      []*c17Stream
+	byID         map[uint32]*c17Stream
+	cliClosed    bool // the client closed the connection (EOF)
+	srvClosed    bool // the harness closed it
 	sentSettings bool
-	pingsSeen [][8]byte // PINGs from the client not yet acknowledged
-	notReading bool     // the server has stopped reading: the client's writes block (back-pressure)
+	pingsSeen    [][8]byte // PINGs from the client not yet acknowledged
+	notReading   bool      // the server has stopped reading: the client's writes block (back-pressure)
 }
 
 type c17cli struct {
 	t  testing.TB
 	tr *Transport
 
-	mu    sync.Mutex
-	conns []*c17Conn
-	reqs  []*c17Req
-	step  int
-	bad   []string // harness-level protocol problems observed in the client's output
+	mu      sync.Mutex
+	conns   []*c17Conn
+	reqs    []*c17Req
+	step    int
+	bad     []string    // harness-level protocol problems observed in the client's output
 	assigns []c17Assign // pool decisions in the order they were made (guarded by mu)
 }
 
